@@ -83,7 +83,23 @@ def make_corpus(tier, seed):
         corpus.append(dict(c, kind="expr"))
     for c in collect(keytype_cases(), max(40, n[3] // 5), seed * 7 + 5):
         corpus.append(c)
+    corpus.extend(arith_programs())
     return corpus
+
+
+BIG = [2 ** 53 + 1, (2 ** 53 + 1) * 3, 6, 10 ** 400, 10 ** 398, -(2 ** 63), 2 ** 64 + 1, 3, 0, 7.0, 0.1, 1e308, True]
+ARITH_OPS = ["+", "-", "*", "/", "//", "%", "<", ">="]
+
+
+def arith_programs():
+    """exact-integer arithmetic at and beyond the float range: the two builds must agree digit for digit
+    (a typed fast path exists only in the compiled build)"""
+    out = []
+    for op in ARITH_OPS:
+        for form in ("ref-ref", "ref-lit", "lit-ref"):
+            out.append({"kind": "arith", "op": op, "form": form,
+                        "pairs": [[E.enc(a), E.enc(b)] for a in BIG for b in BIG]})
+    return out
 
 
 KEY_PALETTE = [["np", "int64", 1], ["np", "int64", 0], ["np", "int32", 2], ["np", "uint8", 1], ["np", "intp", 3],
@@ -203,6 +219,27 @@ def interpret(case):
                 if not run_ops(w, [op], tr, tag=f"[{name}] "):
                     return tr
         return tr
+    if kind == "arith":
+        import xdeps
+        data = {"x": 0, "y": 0}
+        mgr = xdeps.Manager()
+        ref = mgr.ref(data, "r")
+        fn = E.BINOPS[case["op"]]
+        for ea, eb in case["pairs"]:
+            a, b = E.dec(ea), E.dec(eb)
+            data["x"], data["y"] = a, b
+            try:
+                if case["form"] == "ref-ref":
+                    ex = fn(ref["x"], ref["y"])
+                elif case["form"] == "ref-lit":
+                    ex = fn(ref["x"], b)
+                else:
+                    ex = fn(a, ref["y"])
+            except Exception as e:
+                tr.append(["build", "exc", type(e).__name__])
+                continue
+            tr.append(["value", tval(ex._get_value) if E.is_ref(ex) else ["plain", repr(ex)]])
+        return tr
     if kind == "keytypes":
         import xdeps
         data = {"a": 2.0, "l": [0.0, 1.0, 2.0, 3.0], "m": {0: 0.0, 1: 1.0, 2: 2.0, 3: 3.0, "k": 7.0, -1: 9.0, -2: 8.0}}
@@ -290,6 +327,8 @@ def classify(case):
         return E.n_ops(case["ast"]) >= 2, cls
     if kind == "keytypes":
         return any(k[0] == "np" for k in case["keys"]), cls + ["keytypes:" + k[1] for k in case["keys"]]
+    if kind == "arith":
+        return True, cls + ["arith:" + case["op"]]
     nt = kind in ("pickle", "load")
     model = W.Model(H.dec_init(case))
     for op in case["ops"]:
@@ -309,6 +348,9 @@ def classify(case):
 def render(case):
     if case["kind"] == "keytypes":
         return dict(case)
+    if case["kind"] == "arith":
+        return {"kind": "arith", "op": case["op"], "form": case["form"], "pairs": len(case["pairs"]),
+                "values": [E.show(v) if not isinstance(v, int) or abs(v) < 10 ** 30 else f"int:~1e{len(str(abs(v))) - 1}" for v in BIG]}
     if case["kind"] == "expr":
         return {"kind": "expr", "term": E.render(case["ast"]), "keys": [repr(k) for k in case["K"]]}
     out = {"kind": case["kind"], "history": W.render_case(case)}
@@ -361,6 +403,12 @@ def describe_difference(d):
 def shrink_candidates(case):
     """smaller variants of a program (greedy one-step removals), parent side"""
     out = []
+    if case["kind"] == "arith":
+        if len(case["pairs"]) > 1:
+            h = len(case["pairs"]) // 2
+            out.append(dict(case, pairs=case["pairs"][:h]))
+            out.append(dict(case, pairs=case["pairs"][h:]))
+        return out
     if case["kind"] == "keytypes":
         for i in range(len(case["keys"])):
             if len(case["keys"]) > 1:
@@ -388,7 +436,7 @@ def shrink_candidates(case):
 
 def valid(case):
     """a shrunk program must still be inside the generator's domain (acyclic, outside K1)"""
-    if case["kind"] in ("expr", "keytypes"):
+    if case["kind"] in ("expr", "keytypes", "arith"):
         return True
     try:
         model = W.Model(H.dec_init(case))
